@@ -83,6 +83,7 @@ class Exec:
         self.arrays = arrays   # name -> kind ('in' | 'out' | 'z0' | 'zi')
         self.alias = alias_out_to   # (outname, inname) or None
         self.reads_after_write = []
+        self.divisors = []     # every expression the code divides by, in program order
 
     def cell(self, name, idx):
         if self.alias and name == self.alias[0]:
@@ -131,6 +132,8 @@ class Parser:
         while self.peek() in (("op", "*"), ("op", "/")):
             op = self.next()[1]
             r = self.unary()
+            if op == "/":
+                self.ex.divisors.append(r)
             v = v * r if op == "*" else v / r
         return v
 
@@ -238,8 +241,25 @@ def extract(fname):
     return m.group(1), m.group(2), text[m.start():m.end()]
 
 
-def run_function(fname, inputs, alias=False):
-    """returns dict of output cells -> expr; inputs: dict cell->expr for input arrays"""
+def split_args(text):
+    out, depth, cur = [], 0, ""
+    for ch in text:
+        if ch == "," and depth == 0:
+            out.append(cur)
+            cur = ""
+            continue
+        depth += ch in "([" 
+        depth -= ch in ")]"
+        cur += ch
+    out.append(cur)
+    return [a.strip() for a in out]
+
+
+def run_function(fname, inputs, alias=False, divs=None, depth=0):
+    """returns dict of output cells -> expr; inputs: dict cell->expr for input arrays;
+    divs (list) collects every divisor, including those of nested vnaconv_* calls"""
+    if depth > 3:
+        raise ParseError("call nesting too deep in %s" % fname)
     sig, body, _ = extract(fname)
     body = re.sub(r"/\*.*?\*/", " ", body, flags=re.S)
     params = []
@@ -261,6 +281,8 @@ def run_function(fname, inputs, alias=False):
             arrays[name] = "out"
             outname = name
     ex = Exec(arrays, alias_out_to=(outname, inname) if alias else None)
+    if divs is not None:
+        ex.divisors = divs
     for c, v in inputs.items():
         k = c[0]
         nm = inname if k == "in" else \
@@ -297,12 +319,37 @@ def run_function(fname, inputs, alias=False):
                 raise ParseError("trailing tokens in %r" % stmt[:60])
             ex.locals[mm.group(2)] = v
             continue
+        mm = re.match(r"double complex (\w+)((?:\[2\]){1,2})$", stmt)
+        if mm:          # local scratch array: cells are undefined until written
+            if mm.group(1) in arrays:
+                raise ParseError("local %s shadows a parameter" % mm.group(1))
+            arrays[mm.group(1)] = "local"
+            continue
+        mm = re.match(r"(vnaconv_[a-z]to(?:[a-z]|zi))\s*\((.*)\)$", stmt, re.S)
+        if mm:          # nested two-port conversion: executed from ITS repository text on the caller's memory
+            callee = mm.group(1)
+            args = [re.sub(r"^\(\s*const\s+double\s+complex\s*\(\*\)\s*\[2\]\s*\)\s*", "", a_) for a_ in split_args(mm.group(2))]
+            if not all(a_ in arrays for a_ in args) or len(args) not in (2, 3):
+                raise ParseError("unsupported call arguments in %r" % stmt[:60])
+            cin, cout = ex.cell(args[0], ())[0], ex.cell(args[1], ())[0]
+            sub_in = {}
+            for c_, v_ in ex.mem.items():
+                if c_[0] == cin:
+                    sub_in[("in",) + c_[1:]] = v_
+                if len(args) == 3 and c_[0] == args[2]:
+                    sub_in[("z0",) + c_[1:]] = v_
+            res, _, _ = run_function(callee, sub_in, alias=(cin == cout), divs=ex.divisors, depth=depth + 1)
+            if arrays.get(args[1]) not in ("out", "local"):
+                raise ParseError("call writes to non-output %s" % args[1])
+            for c_, v_ in res.items():
+                ex.write(args[1], list(c_), v_)
+            continue
         if "=" not in stmt:
             raise ParseError("unexpected statement %r" % stmt[:60])
         lhs, rhs = stmt.split("=", 1)
         pl = Parser(tokenize(lhs), ex)
         name, idx = pl.lvalue()
-        if arrays.get(name) != "out":
+        if arrays.get(name) not in ("out", "local"):
             raise ParseError("write to non-output %s" % name)
         pr = Parser(tokenize(rhs), ex)
         v = pr.expr()
@@ -362,6 +409,66 @@ def is_zero(e):
     return False
 
 
+def jreduce(e):
+    """polynomial e reduced modulo J**2 + 1"""
+    e = sp.expand(e)
+    if e.has(I):
+        e = sp.expand(sp.rem(sp.Poly(e, I), sp.Poly(I ** 2 + 1, I)).as_expr())
+    return e
+
+
+def z0_factor_nonzero(f):
+    """f depends on q1, q2, x1, x2 only: is it nonzero for every q_i > 0 and real x_i?  (sufficient test:
+    its real or its imaginary part is a polynomial in the q_i alone whose coefficients all have one sign)"""
+    f = jreduce(f)
+    for part in (f.subs(I, 0), sp.expand((f - f.subs(I, 0)) / I)):
+        part = sp.expand(part)
+        if part != 0 and part.free_symbols <= {q1, q2}:
+            cs = sp.Poly(part, q1, q2).coeffs()
+            if all(c > 0 for c in cs) or all(c < 0 for c in cs):
+                return True
+    return False
+
+
+def dom_obligation(out, divs):
+    """DOM: the code divides only by quantities that vanish nowhere on the domain of the conversion it computes.
+    The conversion is the rational map out(m, z0) in lowest terms; its singular set is the zero set of the
+    reduced denominators D.  Every irreducible factor f of every divisor's numerator must be nonzero for
+    Re z0 > 0, or vanish only inside {D = 0}: decided by eliminating a variable in which f is linear and
+    testing D == 0 on f == 0.  Returns (ok, text)."""
+    D = sp.Integer(1)
+    for v in out.values():
+        D = sp.lcm(D, sp.fraction(sp.cancel(sp.together(v)))[1])
+    seen = set()
+    msyms = [sp.Symbol("m_%d%d" % (r + 1, c + 1)) for r in range(2) for c in range(2)]
+    for d in divs:
+        num = sp.fraction(sp.cancel(sp.together(d)))[0]
+        for f, _mult in sp.factor_list(num)[1]:
+            key = sp.srepr(f)
+            if key in seen:
+                continue
+            seen.add(key)
+            fs = f.free_symbols - {I}
+            if not fs:
+                if jreduce(f) == 0:
+                    return False, "division by the constant zero", None
+                continue
+            if fs <= {q1, q2, x1, x2}:
+                if z0_factor_nonzero(f):
+                    continue
+                return False, "divisor factor %s can vanish for reference impedances with Re z0 > 0" % f, None
+            lin = [v_ for v_ in msyms + [x1, x2] if v_ in fs and sp.Poly(f, v_).degree() == 1]
+            if not lin:
+                raise ParseError("DOM: divisor factor %s is linear in no variable" % f)
+            v_ = lin[0]
+            root = sp.solve(f, v_)[0]
+            if not is_zero(D.subs(v_, root)):
+                return False, ("the code divides by %s, which vanishes at inputs where the conversion is defined "
+                               "(spurious singularity: the reduced result has denominator %s)" % (f, sp.factor(D))), \
+                    dict(var=str(v_), root=str(root))
+    return True, None, None
+
+
 def input_env():
     m = {(r, c): sp.Symbol("m_%d%d" % (r + 1, c + 1)) for r in range(2) for c in range(2)}
     env = {("in", r, c): m[(r, c)] for r in range(2) for c in range(2)}
@@ -378,7 +485,8 @@ def verify_function(fname):
     obs = []
     try:
         M, env = input_env()
-        out, outname, has_z0 = run_function(fname, env)
+        divs = []
+        out, outname, has_z0 = run_function(fname, env, divs=divs)
         sha = __import__("hashlib").sha256(extract(fname)[2].encode()).hexdigest()[:16]
         # solve the input relation for two state variables
         rin = relation(X, M)
@@ -430,6 +538,8 @@ def verify_function(fname):
             okrt = all(is_zero(back[(r, c)] - M[(r, c)]) for r in range(2) for c in range(2))
             obs.append(dict(function=fname, obligation="RT(%s)" % inv, ok=bool(okrt),
                             residual=None if okrt else "round trip differs"))
+        okd, why, wit = dom_obligation(out, divs)
+        obs.append(dict(function=fname, obligation="DOM", ok=bool(okd), residual=why, divisors=len(divs), dom_witness=wit))
         for o in obs:
             o["sha"] = sha
             o["seconds"] = round(time.time() - t0, 2)
@@ -505,6 +615,49 @@ def numeric_witness(fname, lib):
     return None
 
 
+def dom_witness_on_real_code(fname, lib, wit):
+    """a concrete input ON the zero set of the spurious divisor: the real function returns NaN/inf or a wrong
+    value there although the conversion it implements is defined (value from the reduced symbolic result)"""
+    import ctypes
+    import random
+    import numpy as np
+    rnd = random.Random(4242)
+    L = ctypes.CDLL(lib)
+    sig, _, _ = extract(fname)
+    has_z0 = "z0" in sig
+    Y = re.fullmatch(r"vnaconv_([a-z])to([a-z]|zi)", fname).group(2)
+    M, env = input_env()
+    sym, _, _ = run_function(fname, env)
+    names = {str(M[k]): M[k] for k in M}
+    names.update(q1=q1, q2=q2, x1=x1, x2=x2, J=I)
+    var = names[wit["var"]]
+    root = sp.sympify(wit["root"], locals=names)
+    for _ in range(20):
+        vals = {M[k]: sp.Rational(rnd.randint(-9, 9), rnd.randint(1, 5)) + I * sp.Rational(rnd.randint(-9, 9), rnd.randint(1, 5)) for k in M}
+        vals.update({q1: sp.Integer(rnd.randint(4, 9)), q2: sp.Integer(rnd.randint(4, 9)),
+                     x1: sp.Integer(rnd.randint(-20, 20)), x2: sp.Integer(rnd.randint(-20, 20))})
+        other = {k: v for k, v in vals.items() if k != var}
+        try:
+            vals[var] = root.subs(other)
+            num = {k: complex(sp.N(v.subs(I, sp.I))) for k, v in vals.items()}
+            expect = {c: complex(sp.N(sp.cancel(sp.together(e)).subs(vals).subs(I, sp.I))) for c, e in sym.items()}
+        except Exception:
+            continue
+        Min = np.array([[num[M[(r, c)]] for c in range(2)] for r in range(2)], dtype=complex)
+        z0 = np.array([num[q1] ** 2 + 1j * num[x1].real, num[q2] ** 2 + 1j * num[x2].real], dtype=complex)
+        out = np.zeros((2, 2) if Y != "zi" else (2,), dtype=complex)
+        args = [Min.ctypes.data_as(ctypes.c_void_p), out.ctypes.data_as(ctypes.c_void_p)]
+        if has_z0:
+            args.append(z0.ctypes.data_as(ctypes.c_void_p))
+        getattr(L, fname)(*args)
+        got = {c: complex(out[c]) for c in expect}
+        bad = [c for c in expect if not np.isfinite(got[c]) or abs(got[c] - expect[c]) > 1e-6 * (1 + abs(expect[c]))]
+        if bad and all(np.isfinite(v) for v in expect.values()):
+            return dict(input=[[str(c) for c in row] for row in Min.tolist()], z0=[str(c) for c in z0],
+                        returned={str(c): str(got[c]) for c in got}, defined_value={str(c): str(expect[c]) for c in expect})
+    return None
+
+
 def build_shared_lib():
     import subprocess
     wd = os.path.join(VERIF, "build", "C04")
@@ -560,6 +713,10 @@ def main():
             wit = None
             try:
                 wit = numeric_witness(f, lib) if (lib and re.fullmatch(r"vnaconv_[a-z]to([a-z]|zi)", f)) else None
+                if wit is None and lib:
+                    for o in os_:
+                        if o.get("dom_witness"):
+                            wit = dom_witness_on_real_code(f, lib, o["dom_witness"])
             except Exception as e:  # pragma: no cover
                 wit = None
             path = os.path.join(rdir, f + ".json")
